@@ -373,7 +373,7 @@ MANIFEST = {
                   'any listed history, node insertion order, batch computation order and task execution order; all draws of a batch '
                   'come from one generator seeded by get_sub_seed(seed, batch) in a dependency-respecting node order that is the '
                   'same in both runs; the global generator is never touched (its stand-in logs every use).',
-    'level_note': 'RandomState replaced by a position-named stream stub (contract: stream is a function of the seed); 5 programs, '
+    'level_note': 'RandomState replaced by a position-named stream stub (contract: stream is a function of the seed); every 3-node program of the solver-chosen family and 7 curated programs, '
                   '<=6 insertion orders, 5 histories, 3 batches, in-process clients only (native + reordering stub + the readiness-scheduled client of C04 for threshold / n_sim Rejection runs); real worker '
                   'processes and bit-level reproducibility of numpy are outside. z3 trusted.',
 }
